@@ -57,3 +57,42 @@ def register(J):
                      statement="C09: the boolean getter succeeds exactly on 1/0/yes/no/true/false in any "
                                "letter case and on the empty value (false), fails on every other text, "
                                "does not dereference an absent value. C10: writes only *result."))
+
+
+def register_wrappers(J):
+    """dfcc contracts on the macro-generated public wrappers (contracts/getvalue.h)."""
+    nd = {"int32_t": "int32", "int64_t": "int64", "uint32_t": "uint32", "uint64_t": "uint64", "float": "float",
+          "double": "double", "bool": "bool"}
+    for fct, ct in (("Int", "int32_t"), ("Int64", "int64_t"), ("UInt", "uint32_t"), ("UInt64", "uint64_t"),
+                    ("Float", "float"), ("Double", "double"), ("String", "char*"), ("Bool", "bool")):
+        base = ["-DFCT=" + fct, "-DCT=" + ct] + (["-DIS_STRING=1"] if fct == "String" else ["-Dnondet_ct=nondet_" + nd[ct]])
+        g = "econf_get%sValue" % fct
+        J.append(Job("getvalue." + fct, ["C10", "C11", "C08", "C09"], "harness/getvalue.c", sources=["lib/libeconf.c"],
+                     stubs=["stubs/strdup_abstract.c"], contracts=["contracts/getvalue.h"], enforce=g,
+                     replace=["find_key", "stripbrackets", "get%sValueNum" % fct], unwind=10, tier="T1",
+                     defines=base + ["-DPART_GET=1"], timeout=300, mem_gb=4, model="M-packed abstract strdup",
+                     expect=[g + r"\.postcondition\."],
+                     statement="C10: %s writes only *result (frame); C11: the lookup uses the caller's key and a private "
+                               "bracket-stripped copy of the section name, a missing object/key is refused; C08/C09: exactly "
+                               "the entry the lookup named is converted by the matching per-entry getter (whose own contract "
+                               "is job numget.*/getbool.*) into the caller's result." % g))
+        d = "econf_get%sValueDef" % fct
+        J.append(Job("getdef." + fct, ["C11", "C10"], "harness/getvalue.c", sources=["lib/get_value_def.c"],
+                     stubs=["stubs/strdup_abstract.c"], contracts=["contracts/getvalue.h"], replace=[g], unwind=10,
+                     tier="T1", defines=base + ["-DPART_DEF=1"], timeout=300, mem_gb=4, functions=[d],
+                     model="M-packed abstract strdup",
+                     statement="C11: %s asks the plain getter with the caller's arguments, hands on its code and returns "
+                               "the default (bit for bit; a copy for text) exactly when the key is absent." % d))
+        svt = {"String": "const char*", "Bool": "const char*"}.get(fct, ct)
+        s = "econf_set%sValue" % fct
+        J.append(Job("setvalue." + fct, ["C11", "C08"], "harness/getvalue.c", sources=["lib/libeconf.c"],
+                     stubs=["stubs/strdup_abstract.c"], contracts=["contracts/getvalue.h"], enforce=s,
+                     replace=["setKeyValue", "stripbrackets"], unwind=10, tier="T1",
+                     defines=["-DFCT=" + fct, "-DCT=" + ct, "-DSVT=" + svt, "-DPART_SET=1"] +
+                             (["-DIS_STRING=1", "-DIS_TEXT=1"] if fct == "String" else
+                              ["-DIS_TEXT=1", "-Dnondet_ct=nondet_bool"] if fct == "Bool" else ["-Dnondet_ct=nondet_" + nd[ct]]),
+                     timeout=300, mem_gb=4, model="M-packed abstract strdup", expect=[s + r"\.postcondition\."],
+                     bounds="key <= 3 bytes (the setter takes strlen(key))",
+                     statement="C11: %s refuses a missing object, a missing or an empty key without effect; otherwise it "
+                               "stores through setKeyValue with the matching per-entry setter, the caller's key/value and a "
+                               "private bracket-stripped copy of the section name; frame: nothing else is written." % s))
